@@ -88,6 +88,14 @@ CLAIMED = {
         "no clock/RNG/environment/cwd/identity value is reachable from the generator; serialisers sort keys.",
         "Assumes dict / protobuf container iteration is insertion-ordered and third-party serialisers are deterministic.",
         "DESIGN.md 4/C10"),
+    "C12": (
+        "sibling cross-check of renaming sites against one predicate shape (ast patterns) + name-kind typing of identifier holes in skeletons",
+        "Decides that every proto-name to Python-name site applies `x + '_' iff x in RESERVED_NAMES` over the one literal (so the ~70-word "
+        "quantifier is discharged symbolically), that every Python keyword is in that list, that rpc / proto-file / module names avoid "
+        "keywords and client internals, that no wire-spelled field accessor fills a Python identifier slot in any library skeleton, and "
+        "that all renderers of the client method name agree. The executed word x position cross product is not run.",
+        "Trusted: proto-plus attribute fallback `x` -> `x_` for non-keyword reserved names.",
+        "DESIGN.md 4/C12"),
     "C15": (
         "ast pattern + def-use rules on API.gapic_metadata / legacy flattening; renderer agreement with client skeletons; fix-up table slots",
         "Decides the transport/class table, that every service x client x rpc is listed once (sorted, unfiltered), that the library "
